@@ -511,7 +511,87 @@ end Jwt.Generated
     return "CliTables.lean", text, {"exit": last, "ec": ec, "binpad": uses_binpad, "optstr": {t: v[0] for t, v in tools.items()}}
 
 
-GENERATORS = [gen_base64, gen_alg, gen_common, gen_jwk, gen_ops, gen_cli]
+def enclosing_function(src, pos):
+    """name of the function whose body contains offset pos (brace matching from the top level)"""
+    depth, name, i = 0, None, 0
+    last_header = None
+    for m in re.finditer(r"[{}]|\b(\w+)\s*\([^;{}]*\)\s*(?=\{)", src[:pos]):
+        t = m.group(0)
+        if t == "{":
+            if depth == 0:
+                name = last_header
+            depth += 1
+        elif t == "}":
+            depth -= 1
+            if depth == 0:
+                name = None
+        elif depth == 0:
+            last_header = m.group(1)
+    return name if depth > 0 else None
+
+
+def gen_conc(repo, build):
+    lib = os.path.join(build, "libjwt.a")
+    r = subprocess.run(["nm", "-A", "--defined-only", lib], capture_output=True, text=True)
+    if r.returncode != 0:
+        raise ExtractError("nm failed on libjwt.a: " + r.stderr[-200:])
+    writable = []
+    for line in r.stdout.splitlines():
+        m = re.match(r"[^:]*:([^:]+):\s*[0-9a-f]*\s+([dDbBcC])\s+(\S+)$", line)
+        if not m:
+            continue
+        obj, kind, sym = m.groups()
+        if sym.startswith("__") or "asan" in sym or "tsan" in sym or "ubsan" in sym or sym.startswith(".L"):
+            continue
+        writable.append((os.path.basename(obj).replace(".c.o", ".c"), sym, kind))
+    writable.sort()
+    # who assigns the writable globals, and is anything written through an ops table or a cast-away const key?
+    writers = {}
+    casts = 0
+    table_writes = 0
+    srcs = []
+    for root in ("libjwt", "libjwt/openssl", "libjwt/gnutls"):
+        d = os.path.join(repo, root)
+        for fn in sorted(os.listdir(d)):
+            if fn.endswith(".c") or fn.endswith(".h") or fn.endswith(".i"):
+                srcs.append(os.path.join(d, fn))
+    names = sorted({w[1].split(".")[0] for w in writable})
+    for path in srcs:
+        raw = open(path).read()
+        raw = re.sub(r"/\*.*?\*/", lambda m_: " " * len(m_.group(0)), raw, flags=re.S)
+        raw = re.sub(r"//[^\n]*", lambda m_: " " * len(m_.group(0)), raw)
+        casts += len(re.findall(r"\(\s*(?:struct\s+jwk_item|jwk_item_t)\s*\*\s*\)", raw))
+        table_writes += len(re.findall(r"\bjwt_\w+_ops\s*\.\s*\w+\s*(?:=[^=]|\+\+|--|[-+|&]=)", raw))
+        table_writes += len(re.findall(r"\bjwt_ops(?:_available\s*\[[^\]]*\])?\s*->\s*\w+\s*(?:=[^=]|\+\+|--|[-+|&]=)", raw))
+        for n in names:
+            for m in re.finditer(r"(?<![\w.>])%s\s*(?:=[^=]|\+\+|--|[-+|&]=)" % re.escape(n), raw):
+                fn = enclosing_function(raw, m.start())
+                if fn is not None:
+                    writers.setdefault(n, set()).add(fn)
+    rows = ", ".join('("%s", "%s", "%s")' % w for w in writable)
+    wr = ", ".join('("%s", [%s])' % (n, ", ".join('"%s"' % f for f in sorted(fs))) for n, fs in sorted(writers.items()))
+    text = f"""/- GENERATED by tie/extract.py from the symbol table of the freshly built libjwt.a (nm: writable data/bss,
+including function-local statics) and from the library sources -- do not edit. -/
+namespace Jwt.Generated
+
+/-- every writable object with static storage duration in the library: (source file, symbol, nm class) -/
+def mutableStatics : List (String × String × String) := [{rows}]
+
+/-- functions that assign to one of them (by name, comments stripped) -/
+def staticWriters : List (String × List String) := [{wr}]
+
+/-- assignments through `jwt_ops->field` or to a field of a provider ops table -/
+def opsTableWrites : Nat := {table_writes}
+
+/-- casts to a non-const `jwk_item_t *` in the library sources (a way to write through the const key) -/
+def keyConstCasts : Nat := {casts}
+
+end Jwt.Generated
+"""
+    return "ConcFacts.lean", text, {"statics": writable, "writers": {k: sorted(v) for k, v in writers.items()}, "table_writes": table_writes, "casts": casts}
+
+
+GENERATORS = [gen_base64, gen_alg, gen_common, gen_jwk, gen_ops, gen_cli, gen_conc]
 
 
 def main():
